@@ -70,7 +70,9 @@ class SessionCtx:
         self.pcfg = None
         self.pops = []                  # every item returned by PcfgQueue.next() (incl. None)
         self.expansions = []            # (pt tuple, first line index, ret or None)
-        self.nlines = 0
+        self.nlines = 0                 # guesses handed to print_guess so far (the seam, not the stdout buffer)
+        self.guesses = []               # those guesses
+        self.stdout_lines = 0           # lines that actually reached the stdout seam
         self.clock = SimClock()
         self.cost_per_guess = 0.0
         self.thread_started = False
@@ -100,7 +102,11 @@ class SessionCtx:
             self.fire()
 
     def on_line(self, n):
-        self.nlines = n
+        self.stdout_lines = n
+
+    def on_guess(self, guess):
+        self.guesses.append(guess)
+        n = self.nlines = len(self.guesses)
         self.clock.now += self.cost_per_guess
         tr = self.trigger
         if not tr:
@@ -218,6 +224,16 @@ def install():
         return ret
 
     pg.PcfgGrammar.create_guesses = create_guesses
+    orig_print = pg.PcfgGrammar.print_guess
+
+    def print_guess(self, guess):
+        r = orig_print(self, guess)
+        ctx = _CUR[0]
+        if ctx is not None:
+            ctx.on_guess(guess)
+        return r
+
+    pg.PcfgGrammar.print_guess = print_guess
     orig_restore = pg.PcfgGrammar.restore_omen
 
     def restore_omen(self, omen_guess_num, pt_item, *a, **kw):
